@@ -487,7 +487,7 @@ def _collect_levels(level, acc):
 def schemas(draw, special_text=False, odd_literals=False, max_messages=3):
     opts = {"special_text": special_text, "odd_literals": odd_literals}
     sch = {"package": draw(st.sampled_from(["pk", "Pkg_1", "s", "schema_name", "my_schema2"])),
-           "id": draw(st.sampled_from([0, 1, 7, 255, 256, 65535])),
+           "id": draw(st.sampled_from([0, 1, 7, 255, 256, 65535, 65535, 65536, 100001, 4294967295])),
            "version": draw(st.sampled_from([0, 1, 5, 255, 65535])),
            "semantic_version": draw(st.sampled_from([None, "5.2", "1.0.0-rc1"])),
            "description": _text(draw, special_text) if draw(st.integers(0, 3)) == 0 else None,
@@ -539,7 +539,7 @@ def schemas(draw, special_text=False, odd_literals=False, max_messages=3):
     ids = set()
     for _ in range(draw(st.sampled_from([0] + list(range(1, max_messages + 1)) * 3))):
         m = {"name": _names(draw, mused)}
-        idc = [i for i in [0, 1, 2, 3, 127, 255, 256, 65535] if i not in ids]
+        idc = [i for i in [0, 1, 2, 3, 127, 255, 256, 65535, 65536, 100001, 4294967295] if i not in ids]
         m["id"] = draw(st.sampled_from(idc))
         ids.add(m["id"])
         m.update(gen_level(draw, opts, ctx, 0, True))
